@@ -23,6 +23,9 @@ from harness import core as C  # noqa: E402
 from harness import gen, runner  # noqa: E402
 
 COQ = os.path.join(ROOT, "coq")
+# verdict files (replays, evidence) go to /verif, except when the check is pointed at another tree than /repo (seeded
+# changes applied to a scratch worktree, harness/seedtest.sh): those runs must not overwrite the evidence of /repo
+OUT = os.environ.get("VERIF_OUT") or (ROOT if os.environ.get("VERIF_REPO", "/repo") == "/repo" else "/tmp/verif_seed_out")
 LEVELS = json.load(open(os.path.join(ROOT, "levels.json")))
 ALLOWED_AXIOMS = set()          # target: every property theorem closed under the global context
 TRUSTED_BASE = [
@@ -137,9 +140,9 @@ def known_match(known, pid, case, positions):
 
 
 def write_replay(pid, case, kind, extra):
-    os.makedirs(os.path.join(ROOT, "replays"), exist_ok=True)
+    os.makedirs(os.path.join(OUT, "replays"), exist_ok=True)
     h = C.prog_hash(case["prog"], C.dumps(case.get("flav", {})))
-    path = os.path.join(ROOT, "replays", f"{pid}-{h}.json")
+    path = os.path.join(OUT, "replays", f"{pid}-{h}.json")
     doc = {"property": pid, "kind": kind, "case_id": case["id"], "flav": case.get("flav"), "mode": case.get("mode"),
            "tags": case["tags"], "prog": case["prog"], "src": case.get("src", case["prog"]),
            "program_text": [C.cstmt(s) for s in case["prog"]],
@@ -283,12 +286,12 @@ def main():
                                  "model": det, "correspondence": "Corr/Check.v: failing"})
             violations.append((f"VIOLATION property={pid} replay={path} no-failing-input-found", path))
     if broken_shards and ok_build:
-        path = os.path.join(ROOT, "replays", f"{pid}-shards.json")
+        path = os.path.join(OUT, "replays", f"{pid}-shards.json")
         os.makedirs(os.path.dirname(path), exist_ok=True)
         json.dump({"property": pid, "kind": "shard-evaluation-failed", "shards": broken_shards}, open(path, "w"), indent=1)
         violations.append((f"VIOLATION property={pid} replay={path} no-failing-input-found", path))
     if proof_broken and not any("no-failing-input-found" not in v[0] for v in violations):
-        path = os.path.join(ROOT, "replays", f"{pid}-proof.json")
+        path = os.path.join(OUT, "replays", f"{pid}-proof.json")
         os.makedirs(os.path.dirname(path), exist_ok=True)
         json.dump({"property": pid, "kind": "proof-obligation-broken",
                    "theorems": pr["theorems"], "gate": gate_hits, "log": pr["log"] if ok_build else blog,
@@ -350,8 +353,8 @@ def main():
         "wall_s": round(time.time() - t0, 2),
         "violations": len(violations),
     }
-    os.makedirs(os.path.join(ROOT, "evidence"), exist_ok=True)
-    with open(os.path.join(ROOT, "evidence", f"{pid}.json"), "w") as fh:
+    os.makedirs(os.path.join(OUT, "evidence"), exist_ok=True)
+    with open(os.path.join(OUT, "evidence", f"{pid}.json"), "w") as fh:
         json.dump(ev, fh, indent=1)
 
     for what, n in known_hits.items():
